@@ -165,3 +165,34 @@ Definition spec_ok (o : c16_obs) (hits : list Z) : bool :=
 Definition case_ok (c : callable) (regs : list Z) (plan : list (access * Z)) (impl : c16_obs) (hits : list Z)
   : bool * bool :=
   (obs_eqb (model_obs c regs plan) impl, spec_ok impl hits).
+
+(* ---- several objects decorated in a row (the originals are temporaries) ---------------- *)
+Fixpoint decorate_all (regs : list Z) (cs : list callable) : list Z * list callable :=
+  match cs with
+  | [] => (regs, [])
+  | c :: r => let st := decorate (regs, c) in
+              let '(rf, ws) := decorate_all (fst st) r in (rf, snd st :: ws)
+  end.
+
+Definition execs_of (ran : list Z) (c : callable) : list Z :=
+  flat_map (fun f => let n := count_z f ran in [n; n]) (leaf_ids c).
+
+(* siblings: decorated one after the other before the case's own object, each result then used
+   once through access a from depth 0.  Returns (model agrees, property holds on the observation):
+   the property part says every returned object runs - under the profiler - exactly the functions
+   of the object it was made from (Python's own semantics of that object, `invoke` on the original),
+   each registered once, with exact hit counts. *)
+Definition sibs_ok (a : access) (sibs : list callable) (impl_regs : list Z)
+           (impl_shapes impl_runs : list (list Z)) (impl_execs impl_hits : list Z) : bool * bool :=
+  let '(rf, ws) := decorate_all [] sibs in
+  let ran := flat_map (fun w => map fst (invoke 0 a w)) ws in
+  (lz_eqb rf impl_regs
+   && list_eqb lz_eqb (map encode ws) impl_shapes
+   && list_eqb lz_eqb (map (fun w => enc_runs (invoke 0 a w)) ws) impl_runs
+   && lz_eqb (flat_map (execs_of ran) sibs) impl_execs,
+   forallb run_depths_ok impl_runs
+   && list_eqb lz_eqb (map run_ids impl_runs) (map (fun s => map fst (invoke 0 a s) ++ [-2]) sibs)
+   && forallb (fun r => forallb (fun f => (f =? -2) || (count_z f impl_regs =? 1)) (run_ids r)) impl_runs
+   && lz_eqb impl_hits impl_execs).
+
+Definition both (x y : bool * bool) : bool * bool := (fst x && fst y, snd x && snd y).
